@@ -206,11 +206,12 @@ on...",
 
         restart_from = min([me.status.slot for me in MS if me.status.restart] + [size - 1])
 
-        if S.status.slot < restart_from:
-            MS[restart_from - S.status.slot].status.restarts_in_a_row = 0
-        else:
-            step = MS[S.status.slot - restart_from]
-            step.status.restarts_in_a_row = S.status.restarts_in_a_row + 1 if S.status.restart else 0
+        # update all steps at once, such that no counter is overwritten before it has been passed on
+        if S.status.first:
+            restarts_in_a_row = [me.status.restarts_in_a_row + 1 if me.status.restart else 0 for me in MS[restart_from:]]
+            restarts_in_a_row += [0] * restart_from
+            for step, num_restarts in zip(MS, restarts_in_a_row):
+                step.status.restarts_in_a_row = num_restarts
 
         return None
 
